@@ -191,6 +191,10 @@ def entry_case(kw, res: Result = None):
         mon.send(P.build(P.MT_CONNECT_V2, P.CONNECT_V2.pack(0, 0, 0, 90, 1, P.cstr(b"monitor")), src_mod=90, timecode=kw["timecode"]))
         mon.send(P.build(P.MT_SUBSCRIBE, P.SUBSCRIBE.pack(P.MT_CLIENT_INFO), src_mod=90, timecode=kw["timecode"]))
         cs.pump()
+        for k in range(kw.get("others", 0)):
+            o = sim.open()
+            o.send(P.build(P.MT_CONNECT_V2, P.CONNECT_V2.pack(0, 0, 0, 0, 1, P.cstr(b"")), src_mod=0, timecode=kw["timecode"]))
+        cs.pump()
         mon.take()
         before = len(sim.net.pairs)
         from vlib.simnet import SOCK
@@ -205,7 +209,10 @@ def entry_case(kw, res: Result = None):
                 args["daemon_status"] = kw["daemon"]
             if kw["multi"] is not None:
                 args["allow_multiple"] = kw["multi"]
-            c.connect("127.0.0.1:7111", **args)
+            try:
+                c.connect("127.0.0.1:7111", **args)
+            except Exception as e:
+                raise Violation(f"entry/connect/raised-{type(e).__name__}", f"{kw}: connect() raised {type(e).__name__}: {e}", trace)
             client = c
             cm = None
         else:
@@ -276,11 +283,31 @@ def entry_case(kw, res: Result = None):
             # the same Client object connects again (connect() disconnects first): a dynamic id must be
             # requested afresh, the flags of the second call apply
             flags2 = kw["reconnect"]
+            if kw.get("lost"):
+                # ... after the connection was lost without disconnect(): the manager drops the client
+                # (it sent a header with an impossible payload length) and the client notices on its next read
+                from pyrtma.exceptions import ConnectionLost
+
+                client._sock.sendall(P.build(1234, b"", num_data_bytes=-5, src_mod=client.module_id, timecode=kw["timecode"]))
+                cs.pump()
+                try:
+                    for _ in range(50):
+                        if client.read_message(timeout=0) is None and not client._sock.rx and not client._sock.rx_fin:
+                            break
+                    raise Violation("entry/lost/not-noticed", f"{kw}: the manager dropped the client but read_message never raised ConnectionLost", trace)
+                except ConnectionLost:
+                    pass
+                if res is not None:
+                    res.count("entry-reconnect-after-loss")
             mon.take()
             mon.rxbuf.clear()
             n_before = len(sim.net.pairs)
             SOCK.label = "cl-entry2"
-            client.connect("127.0.0.1:7111", logger_status=flags2[0], daemon_status=flags2[1], allow_multiple=flags2[2])
+            try:
+                client.connect("127.0.0.1:7111", logger_status=flags2[0], daemon_status=flags2[1], allow_multiple=flags2[2])
+            except Exception as e:  # the id (or a fresh dynamic id) is free: the connect must succeed
+                raise Violation(f"entry/reconnect/raised-{type(e).__name__}",
+                                f"{kw}: connecting again with the same Client object raised {type(e).__name__}: {e}", trace)
             cs.pump()
             if sim.dead:
                 raise Violation("manager-died", sim.dead.splitlines()[-1], trace)
@@ -325,7 +352,8 @@ def shard_entry(seed, n):
                                        module_id=st.sampled_from([0, 0, 10, 11, 50, 99, 1]),
                                        name=st.sampled_from(["", "alpha", "a_long_module_name_of_31_chars_"]),
                                        logger=tri, daemon=tri, multi=tri, timecode=st.booleans(),
-                                       reconnect=st.one_of(st.none(), st.tuples(st.booleans(), st.booleans(), st.booleans()))))
+                                       reconnect=st.one_of(st.none(), st.tuples(st.booleans(), st.booleans(), st.booleans())),
+                                       lost=st.booleans(), others=st.integers(0, 3)))
     hyp_run(lambda kw: entry_case(kw, res), strat, seed, n, res)
     return res
 
